@@ -102,6 +102,7 @@ let () =
           | "mk" ->
             out line;
             let m = { mfrom = n_of_int (ai 0); mto = n_of_int (ai 1); mpromote = n_of_int (ai 2) } in
+            out (Printf.sprintf "M %d" (b2i (moveOk !pos m)));
             snaps := !pos :: !snaps;
             let (p, ui) = makeMove zk !pos m in
             pos := p; moves := m :: !moves; undos := ui :: !undos;
